@@ -784,9 +784,10 @@ def c12_sweep_family(quick: bool, rng: random.Random) -> list:
     _, byid, _ = schema()
     n = max(byid)
     out = []
-    undefined = [0, n + 1, n + 2, n + 3, n + 4, n + 5, 127, 128, 255, 256, 16383, 16384, 65535]
+    # (ids that equal a defined id modulo 2^8 / 2^16 as well: a decoder that truncates the type number is fooled by them)
+    undefined = [0, n + 1, n + 2, n + 3, n + 4, n + 5, 127, 128, 255, 256, 16383, 16384, 65535, 256 + 1, 256 + 7, 256 + 9, 512 + 7, 256 + 36, 65280 + 7]
     undefined = [i for i in undefined if i not in byid]
-    big = [65536, 2**31 - 1]
+    big = [65536, 2**31 - 1, 65536 + 7, 65536 + 5, 2**24 + 7]
     for noise in (False, True):
         cfg = dict(noise=noise, exp="none", login=False, K=20000)
         for pl in ("empty", "unkf"):
